@@ -567,8 +567,10 @@ func c23Equal(a, b reflect.Value) bool {
 	}
 	switch a.Kind() {
 	case reflect.Ptr, reflect.Interface:
-		if a.IsNil() || b.IsNil() {
-			return a.IsNil() == b.IsNil()
+		// A nil pointer and a pointer to a nil slice/map/pointer have the same
+		// encoding (f8 00); the format cannot keep them apart, so they are one value.
+		if c23DeepNil(a) || c23DeepNil(b) {
+			return c23DeepNil(a) == c23DeepNil(b)
 		}
 		return c23Equal(a.Elem(), b.Elem())
 	case reflect.Slice:
@@ -609,6 +611,16 @@ func c23Equal(a, b reflect.Value) bool {
 	default:
 		return a.Interface() == b.Interface()
 	}
+}
+
+func c23DeepNil(v reflect.Value) bool {
+	switch v.Kind() {
+	case reflect.Slice, reflect.Map:
+		return v.IsNil()
+	case reflect.Ptr, reflect.Interface:
+		return v.IsNil() || c23DeepNil(v.Elem())
+	}
+	return false
 }
 
 func c23HasBig(t reflect.Type) bool {
@@ -740,9 +752,9 @@ type c23Case struct {
 type c23Env struct {
 	r *ev.Run
 
-	okDec, errDec, beyondSeen, overflowSeen, nilEmptyPairs int64
-	mu                                                       sync.Mutex
-	errKinds                                                 map[string]int64
+	okDec, errDec, beyondSeen, misplacedNil, canaries int64
+	mu                                                sync.Mutex
+	errKinds                                          map[string]int64
 }
 
 func c23TypeName(t reflect.Type) string {
@@ -916,6 +928,166 @@ func c23ShowV(v reflect.Value) string {
 
 // ---- decoder robustness ----
 
+// c23Unmarshal is bytesWrapper.UnmarshalFromBytes without the decoder pool: a
+// fresh decoder per call, so that the cases of the parallel phase cannot
+// influence each other. (The pooled entry point itself is exercised by the
+// round-trip phase and by the sequential pool-hygiene phase.)
+func c23Unmarshal(in []byte, v interface{}) ([]byte, error) {
+	buf := bytes.NewBuffer(append([]byte{}, in...))
+	d := rlpCodecObject.NewDecoder(buf)
+	d.SetMaxBytes(len(in))
+	if err := d.Decode(v); err != nil {
+		return nil, err
+	}
+	return append([]byte{}, buf.Bytes()...), nil
+}
+
+type c23FreshCodec struct{ *bytesWrapper }
+
+func (c23FreshCodec) UnmarshalFromBytes(b []byte, v interface{}) ([]byte, error) {
+	return c23Unmarshal(b, v)
+}
+
+var c23Fresh Codec = c23FreshCodec{RLP}
+
+// c23Nullable: the nil marker f8 00 is a legal encoding for this type.
+func c23Nullable(t reflect.Type) bool {
+	switch t.Kind() {
+	case reflect.Ptr, reflect.Slice, reflect.Map, reflect.Interface:
+		return true
+	}
+	return false
+}
+
+// c23NilInStructField walks type and parsed input the way the decoder does and
+// reports whether a nil marker (f8 00) sits in the position of a *struct field*
+// whose type has no nil value (integer, bool, string, array, struct, big.Int).
+// It is used only to label anomalies with their root cause, never as an oracle
+// (a nil marker for a slice/array element or map value of such a type is
+// decoded as the zero value by design).
+func c23NilInStructField(t reflect.Type, n c23Node) bool {
+	if n.Null || t == c23BigIntType || t == reflect.TypeOf(TypedObj{}) {
+		return false
+	}
+	switch t.Kind() {
+	case reflect.Ptr:
+		return c23NilInStructField(t.Elem(), n)
+	case reflect.Slice, reflect.Array:
+		if t.Elem().Kind() == reflect.Uint8 || !n.List {
+			return false
+		}
+		for i, k := range n.Kids {
+			if t.Kind() == reflect.Array && i >= t.Len() {
+				break
+			}
+			if c23NilInStructField(t.Elem(), k) {
+				return true
+			}
+		}
+	case reflect.Map:
+		if !n.List {
+			return false
+		}
+		for i := 1; i < len(n.Kids); i += 2 {
+			if c23NilInStructField(t.Elem(), n.Kids[i]) {
+				return true
+			}
+		}
+	case reflect.Struct:
+		if !n.List {
+			return false
+		}
+		for i, k := range n.Kids {
+			if i >= t.NumField() {
+				break
+			}
+			ft := t.Field(i).Type
+			if k.Null && !c23Nullable(ft) {
+				return true
+			}
+			if c23NilInStructField(ft, k) {
+				return true
+			}
+		}
+	}
+	return false
+}
+
+// ---- structural mutations of a parsed encoding ----
+
+func c23Hdr(base byte, l int) []byte {
+	if l <= 55 {
+		return []byte{base + byte(l)}
+	}
+	var sz []byte
+	for x := l; x > 0; x >>= 8 {
+		sz = append([]byte{byte(x)}, sz...)
+	}
+	return append([]byte{base + 55 + byte(len(sz))}, sz...)
+}
+
+func c23Ser(n c23Node) []byte {
+	if n.Null {
+		return []byte{0xf8, 0x00}
+	}
+	if !n.List {
+		if len(n.Bytes) == 1 && n.Bytes[0] < 0x80 {
+			return []byte{n.Bytes[0]}
+		}
+		return append(c23Hdr(0x80, len(n.Bytes)), n.Bytes...)
+	}
+	var p []byte
+	for _, k := range n.Kids {
+		p = append(p, c23Ser(k)...)
+	}
+	return append(c23Hdr(0xc0, len(p)), p...)
+}
+
+// c23Structural calls fn with every tree obtained from n by replacing one
+// sub-item with the nil marker / an empty list / an empty byte string / the
+// single byte 00, by deleting one sub-item, or by duplicating one sub-item.
+func c23Structural(n c23Node, fn func(kind string, m c23Node)) {
+	repl := []struct {
+		kind string
+		node c23Node
+	}{{"nil-marker", c23Node{Null: true}}, {"empty-list", c23Node{List: true}}, {"empty-bytes", c23Node{Bytes: []byte{}}}, {"zero-byte", c23Node{Bytes: []byte{0}}}}
+	var walk func(cur *c23Node, root *c23Node)
+	walk = func(cur *c23Node, root *c23Node) {
+		saved := *cur
+		for _, rp := range repl {
+			*cur = rp.node
+			fn(rp.kind, c23Clone(*root))
+		}
+		*cur = saved
+		if cur.List {
+			for i := range cur.Kids {
+				kids := cur.Kids
+				// delete kid i
+				cur.Kids = append(append([]c23Node{}, kids[:i]...), kids[i+1:]...)
+				fn("delete", c23Clone(*root))
+				// duplicate kid i
+				cur.Kids = append(append(append([]c23Node{}, kids[:i+1]...), kids[i]), kids[i+1:]...)
+				fn("duplicate", c23Clone(*root))
+				cur.Kids = kids
+				walk(&cur.Kids[i], root)
+			}
+		}
+	}
+	root := c23Clone(n)
+	walk(&root, &root)
+}
+
+func c23Clone(n c23Node) c23Node {
+	o := n
+	if n.Kids != nil {
+		o.Kids = make([]c23Node, len(n.Kids))
+		for i, k := range n.Kids {
+			o.Kids[i] = c23Clone(k)
+		}
+	}
+	return o
+}
+
 type c23Target struct {
 	name string
 	t    reflect.Type
@@ -994,7 +1166,7 @@ func (e *c23Env) decode(tg c23Target, in []byte, family string) {
 	out := reflect.New(tg.t)
 	var rest []byte
 	var err error
-	if p := ev.Catch(func() { rest, err = BC.UnmarshalFromBytes(in, out.Interface()) }); p != "" {
+	if p := ev.Catch(func() { rest, err = c23Unmarshal(in, out.Interface()) }); p != "" {
 		fail("decode-panics:"+tg.name+":"+c23HeaderClass(in), "%s", p)
 		return
 	}
@@ -1011,8 +1183,17 @@ func (e *c23Env) decode(tg c23Target, in []byte, family string) {
 		fail("accepts-size-beyond-input:"+tg.name+":"+c23HeaderClass(in), "decoded=%s", c23Show(out.Elem()))
 		return
 	}
+	// label anomalies that stem from a nil marker in a non-nullable struct field
+	cause := tg.name
+	if st == c23OK && c23NilInStructField(tg.t, node) {
+		atomic.AddInt64(&e.misplacedNil, 1)
+		cause = "nil-marker-in-struct-field"
+	}
 	if !bytes.Equal(rest, in[used:]) {
-		fail("wrong-remainder:"+tg.name, "rest=%x want %x", rest, in[used:])
+		fail("wrong-remainder:"+cause, "rest=%x want %x decoded=%s", rest, in[used:], c23Show(out.Elem()))
+		if cause != tg.name {
+			return
+		}
 	}
 	if n := c23ByteLoad(out.Elem()); n > len(in) {
 		fail("decoded-bytes-exceed-input:"+tg.name, "decoded %d bytes of string data from %d input bytes", n, len(in))
@@ -1051,8 +1232,8 @@ func (e *c23Env) decode(tg c23Target, in []byte, family string) {
 		return
 	}
 	out2 := reflect.New(tg.t)
-	if _, err := BC.UnmarshalFromBytes(b2, out2.Interface()); err != nil || !c23Equal(out.Elem(), out2.Elem()) {
-		fail("decoded-value-does-not-roundtrip:"+tg.name, "decoded=%s reencoded=%x again=%s err=%v", c23Show(out.Elem()), b2, c23Show(out2.Elem()), err)
+	if _, err := c23Unmarshal(b2, out2.Interface()); err != nil || !c23Equal(out.Elem(), out2.Elem()) {
+		fail("decoded-value-does-not-roundtrip:"+cause, "decoded=%s reencoded=%x again=%s err=%v", c23Show(out.Elem()), b2, c23Show(out2.Elem()), err)
 	}
 }
 
@@ -1120,7 +1301,7 @@ func (e *c23Env) decodeAny(in []byte, family string) {
 	c := c23Case{Phase: "any", Hex: hex.EncodeToString(in), Note: family}
 	var v, v2 interface{}
 	var err error
-	if p := ev.Catch(func() { v, err = UnmarshalAny(BC, c23TC{}, in) }); p != "" {
+	if p := ev.Catch(func() { v, err = UnmarshalAny(c23Fresh, c23TC{}, in) }); p != "" {
 		r.Violation("UnmarshalAny-panics:"+c23AnyClass(in), fmt.Sprintf("input=%s panic=%s", c23Hex(in), p), c)
 		return
 	}
@@ -1138,7 +1319,7 @@ func (e *c23Env) decodeAny(in []byte, family string) {
 		r.Violation("decoded-value-cannot-be-encoded:UnmarshalAny", fmt.Sprintf("input=%s decoded=%#v panic=%q err=%v", c23Hex(in), v, p, err), c)
 		return
 	}
-	if p := ev.Catch(func() { v2, err = UnmarshalAny(BC, c23TC{}, b2) }); p != "" || err != nil || !reflect.DeepEqual(v, v2) {
+	if p := ev.Catch(func() { v2, err = UnmarshalAny(c23Fresh, c23TC{}, b2) }); p != "" || err != nil || !reflect.DeepEqual(v, v2) {
 		r.Violation("decoded-value-does-not-roundtrip:UnmarshalAny", fmt.Sprintf("input=%s decoded=%#v reencoded=%x again=%#v panic=%q err=%v", c23Hex(in), v, b2, v2, p, err), c)
 	}
 }
@@ -1362,8 +1543,8 @@ func c23IntFamily() [][]byte {
 
 func TestVerifC23(t *testing.T) {
 	r := ev.Start(t, "C23", "exploration")
-	r.Rule("(A) round trip: typed value grammar built with reflect — leaves: int8/16/32/64/int, uint8/16/32/64/uint at every byte-length boundary, bool, string and []byte of length {0,1,2,55,56,255,256} incl. single bytes 00/7f/80/ff and nil []byte, [4]byte, [1]byte, *big.Int (nil,0,±1,±127..129,±2^64,±2^255) and big.Int fields; constructors {pointer, slice, [2]array, map[string], 1-field struct} applied to every leaf with all leaf values (depth 1), constructor∘constructor over every leaf with representative values (depth 2), a third constructor over depth-2 shapes (quick every 4th shape, thorough all; pairwise values), integer-keyed maps, every ordered pair of leaf types as a 2-field struct, 3-field structs over 7 leaf types, 2-field structs of depth-1 shapes. (B) decoder robustness: every byte string of length<=2 (thorough: + 22 boundary first bytes x all 65536 two-byte tails) into 23 target types and UnmarshalAny; every single-byte substitution (quick 24 boundary values, thorough all 256) and truncation of valid encodings of at most 24 (thorough 40) bytes into their own type; length-field family (b8..bf / f8..ff headers x 18 claimed sizes x payload lengths {0,1,claim-1,claim,claim+1} x 4 fills, also nested in a list); integer family (byte strings of length 0..9 at the sign/width boundaries) into every integer type and bool. (C) map determinism: every insertion order of up to 4 (thorough 6) keys. distinct_nontrivial = distinct (type, encoding) resp. (target, input) pairs")
-	r.Assume("a pointer to a nil slice/map/pointer has the same encoding (f8 00) as a nil pointer and is left out of the grammar (the format cannot keep them apart)",
+	r.Rule("(A) round trip: typed value grammar built with reflect — leaves: int8/16/32/64/int, uint8/16/32/64/uint at every byte-length boundary, bool, string and []byte of length {0,1,2,55,56,255,256} incl. single bytes 00/7f/80/ff and nil []byte, [4]byte, [1]byte, *big.Int (nil,0,±1,±127..129,±2^64,±2^255) and big.Int fields; constructors {pointer, slice, [2]array, map[string], 1-field struct} applied to every leaf with all leaf values (depth 1), constructor∘constructor over every leaf with representative values (depth 2), a third constructor over depth-2 shapes (quick every 4th shape, thorough all; pairwise values), integer-keyed maps, every ordered pair of leaf types as a 2-field struct, 3-field structs over 7 leaf types, 2-field structs of depth-1 shapes. (B) decoder robustness: every byte string of length<=2 (thorough: + 22 boundary first bytes x all 65536 two-byte tails) into 23 target types and UnmarshalAny; every single-byte substitution (quick 24 boundary values, thorough all 256) and truncation of valid encodings of at most 24 (thorough 40) bytes into their own type; length-field family (b8..bf / f8..ff headers x 18 claimed sizes x payload lengths {0,1,claim-1,claim,claim+1} x 4 fills, also nested in a list); integer family (byte strings of length 0..9 at the sign/width boundaries) into every integer type and bool. (B') pool hygiene, sequential on one P: after every accepted input of the structural, length-field and <=2-byte families the pooled BC.UnmarshalFromBytes must still decode an unrelated valid message. (C) map determinism: every insertion order of up to 4 (thorough 6) keys. distinct_nontrivial = distinct (type, encoding) resp. (target, input) pairs")
+	r.Assume("a pointer to a nil slice/map/pointer has the same encoding (f8 00) as a nil pointer: the format cannot keep them apart, the decoder returns the former, and the comparison treats the two as one value",
 		"interface-typed fields and ordered TypedDict.Keys are encode-only resp. order-preserving by design and are not compared structurally (typed objects are compared through UnmarshalAny)",
 		"the independent RLP reader in the harness (with goloop's f8 00 = nil extension) is trusted for sizes and structure")
 	e := &c23Env{r: r, errKinds: map[string]int64{}}
@@ -1407,6 +1588,34 @@ func TestVerifC23(t *testing.T) {
 					}
 				})
 			}
+		case "hygiene":
+			prev := runtime.GOMAXPROCS(1)
+			find := func() (c23Target, bool) {
+				if tg, ok := tgByName[c.Target]; ok {
+					return tg, true
+				}
+				var res c23Target
+				ok := false
+				c23Grammar(true, func(f string, t reflect.Type, v reflect.Value) {
+					if !ok && c23TypeName(t) == c.Target {
+						ok, res = true, c23Target{c.Target, t}
+					}
+				})
+				return res, ok
+			}
+			if tg, ok := find(); ok {
+				canary := &c23S3{A: 7, B: []byte("hello")}
+				cb, _ := BC.MarshalToBytes(canary)
+				out := reflect.New(tg.t)
+				if _, err := BC.UnmarshalFromBytes(in, out.Interface()); err == nil {
+					var got c23S3
+					if _, err := BC.UnmarshalFromBytes(cb, &got); err != nil || got.A != 7 || string(got.B) != "hello" {
+						r.Violation("pooled-decoder-poisoned:replay", fmt.Sprintf("input=%x target=%s next decode: %+v err=%v", in, tg.name, got, err), c)
+					}
+				}
+				r.Eval(1)
+			}
+			runtime.GOMAXPROCS(prev)
 		case "any":
 			e.decodeAny(in, c.Note)
 		case "anyvalue":
@@ -1585,6 +1794,36 @@ func TestVerifC23(t *testing.T) {
 	}
 	r.Set("mutation_seeds", len(bases))
 	r.Set("mutated_inputs", muts)
+	// B4b structural mutations: every sub-item of every seed replaced by the nil
+	// marker / empty list / empty bytes / 00, deleted, or duplicated
+	type hygCase struct {
+		tg c23Target
+		in []byte
+	}
+	var hyg []hygCase
+	structural := 0
+	structKinds := map[string]int{}
+	for _, bs := range bases {
+		tg := c23Target{c23TypeName(bs.t), bs.t}
+		n, _, st := c23Parse(bs.b)
+		if st != c23OK {
+			continue
+		}
+		seen := map[string]bool{string(bs.b): true}
+		c23Structural(n, func(kind string, m c23Node) {
+			in := c23Ser(m)
+			if seen[string(in)] {
+				return
+			}
+			seen[string(in)] = true
+			structural++
+			structKinds[kind]++
+			addDecode(tg, in, "structural-"+kind)
+			hyg = append(hyg, hygCase{tg, in})
+		})
+	}
+	r.Set("structural_mutations", structural)
+	r.Set("structural_mutation_kinds", fmt.Sprint(structKinds))
 	// B5 thorough: 3-byte inputs = every boundary first byte x all 65536 tails
 	if r.Thorough() {
 		firsts := []byte{0x00, 0x7f, 0x80, 0x81, 0x82, 0x83, 0xb7, 0xb8, 0xb9, 0xba, 0xbb, 0xbf, 0xc0, 0xc1, 0xc2, 0xc3, 0xf7, 0xf8, 0xf9, 0xfa, 0xfb, 0xff}
@@ -1613,6 +1852,53 @@ func TestVerifC23(t *testing.T) {
 	r.Set("decodes_rejected", e.errDec)
 	r.Set("inputs_with_size_beyond_input", e.beyondSeen)
 
+	// ---- pool hygiene (sequential, one P so that sync.Pool hands back the decoder
+	// that was just returned): an input accepted by BC.UnmarshalFromBytes must not
+	// change the outcome of the next, unrelated call ----
+	{
+		prev := runtime.GOMAXPROCS(1)
+		canary := &c23S3{A: 7, B: []byte("hello")}
+		canaryBytes, _ := BC.MarshalToBytes(canary)
+		run := func(tg c23Target, in []byte, family string) {
+			out := reflect.New(tg.t)
+			var err error
+			if p := ev.Catch(func() { _, err = BC.UnmarshalFromBytes(in, out.Interface()) }); p != "" || err != nil {
+				return // panics are reported by the parallel phase; a failed call does not return its decoder to the pool
+			}
+			r.Eval(1)
+			e.canaries++
+			var got c23S3
+			_, err = BC.UnmarshalFromBytes(canaryBytes, &got)
+			if err != nil || got.A != canary.A || !bytes.Equal(got.B, canary.B) || got.C != nil {
+				sig := "pooled-decoder-poisoned:" + tg.name
+				if n, _, st := c23Parse(in); st == c23OK && c23NilInStructField(tg.t, n) {
+					sig = "pooled-decoder-poisoned:nil-marker-in-struct-field"
+				}
+				r.Violation(sig, fmt.Sprintf("after BC.UnmarshalFromBytes(%s) into %s returned nil error, the next call BC.UnmarshalFromBytes(%x) of an unrelated valid message gave %+v err=%v", c23Hex(in), tg.name, canaryBytes, got, err),
+					c23Case{Phase: "hygiene", Target: tg.name, Hex: hex.EncodeToString(in), Note: family})
+				BC.UnmarshalFromBytes(canaryBytes, &got) // make sure a clean decoder is back in the pool
+			}
+		}
+		for _, h := range hyg {
+			run(h.tg, h.in, "structural")
+		}
+		for _, in := range lf {
+			for _, tg := range targets {
+				run(tg, in, "length-field")
+			}
+		}
+		for x := 0; x < 256; x++ {
+			for y := 0; y < 256; y++ {
+				for _, tg := range targets {
+					run(tg, []byte{byte(x), byte(y)}, "short")
+				}
+			}
+		}
+		runtime.GOMAXPROCS(prev)
+		r.Set("pool_hygiene_canaries", e.canaries)
+		r.Sanity(e.canaries > 1000, "too few accepted inputs followed by a canary decode (%d)", e.canaries)
+	}
+
 	// ---- allocation bound (sequential: TotalAlloc is process-wide) ----
 	allocChecked := 0
 	var ms0, ms1 runtime.MemStats
@@ -1626,7 +1912,7 @@ func TestVerifC23(t *testing.T) {
 			runtime.ReadMemStats(&ms1)
 			r.Eval(1)
 			allocChecked++
-			bound := uint64(8192 + 64*len(in))
+			bound := uint64(16384 + 256*len(in))
 			if d := ms1.TotalAlloc - ms0.TotalAlloc; d > bound {
 				r.Violation("allocation-beyond-input:"+name+":"+c23HeaderClass(in), fmt.Sprintf("input=%s (%d bytes) made UnmarshalFromBytes allocate %d bytes (bound %d), err=%v", c23Hex(in), len(in), d, bound, err), c23Case{Phase: "decode", Target: name, Hex: hex.EncodeToString(in), Note: "alloc"})
 			}
